@@ -110,9 +110,9 @@ claim("C16",
       "handleMessage provides) yields linearizable histories for every command sequence and store; without atomicity the property is refuted (two INCRs with reads before both writes "
       "reply 1, 1). The extracted checker judges real histories: 2..8 connections play GET/SET/SETNX/GETSET/INCR/DECRBY/APPEND/MSETNX/DEL concurrently (start barrier, free interleaving) "
       "against the example store through the real loop, with invocation/response stamped from one logical clock: systematic contention shapes x 2/4/8 clients, random histories over 1..3 keys.",
-      MULTI_TB + "Partial: that every handler call happens under the command lock is observed through the histories (and the race detector in the thorough tier), not derived statically; "
-      "the Go scheduler decides which interleavings occur.",
-      "Coq-verified linearizability checker (extracted) judging recorded concurrent histories + theorem for atomic execution and refutation without it")
+      MULTI_TB + "Static tie, regenerated from the source on every run by the lockset translator: every call site into the command handler is under one exclusive lock "
+      "(gen/HandlerAccess.v, handler_table_ok re-proved by computation). Partial: the translator is trusted; the Go scheduler decides which interleavings the recorded histories contain.",
+      "Coq-verified linearizability checker (extracted) judging recorded concurrent histories + theorem for atomic execution and refutation without it + handler-call lock table regenerated from source")
 STORE_TB = CONN_TB + ("The reference is Redis.dprim (transcribed from the Redis command reference, itself unverified), run under the same connection model; replies Redis leaves "
                       "unordered are sorted and scores compared as exact numbers before comparison. ")
 claim("C12",
